@@ -77,6 +77,7 @@ func (h *Heap) clone() *Heap {
 }
 
 type modEntry struct {
+	cond string // "" or a Bool term: the entry applies only when cond holds ("modifies X when cond")
 	kind string // cell | fields | elems | map | ghost | all
 	ref  string // address (cell), object ref (fields), backing ref (elems), map ref
 	name string // heap array (ghost) or ""
